@@ -3,6 +3,7 @@ pub mod c02;
 pub mod c03;
 pub mod c04;
 pub mod c15;
+pub mod c18;
 
 use crate::engine::Property;
 
@@ -13,6 +14,7 @@ pub fn by_id(id: &str) -> Option<Box<dyn Property>> {
         "C03" => Box::new(c03::C03),
         "C04" => Box::new(c04::C04),
         "C15" => Box::new(c15::C15),
+        "C18" => Box::new(c18::C18),
         _ => return None,
     })
 }
